@@ -29,10 +29,6 @@ var notApplicable = []struct{ ID, Reason string }{
 
 // notYet: simulation targets by DESIGN.md whose harness is not built (yet); listed so MANIFEST says why they are unclaimed.
 var notYet = []struct{ ID, Reason string }{
-	{"C04", "simulation target by DESIGN.md §2/§5, but its harness is not built yet (work in progress): not claimed until the check exists"},
-	{"C08", "simulation target by DESIGN.md §2/§5, but its harness is not built yet (work in progress): not claimed until the check exists"},
-	{"C09", "simulation target by DESIGN.md §2/§5, but its harness is not built yet (work in progress): not claimed until the check exists"},
-	{"C10", "simulation target by DESIGN.md §2/§5, but its harness is not built yet (work in progress): not claimed until the check exists"},
 	{"C14", "simulation target by DESIGN.md §2/§5, but its harness is not built yet (work in progress): not claimed until the check exists"},
 	{"C17", "simulation target by DESIGN.md §2/§5, but its harness is not built yet (work in progress): not claimed until the check exists"},
 	{"C21", "simulation target by DESIGN.md §2/§5, but its harness is not built yet (work in progress): not claimed until the check exists"},
@@ -140,6 +136,7 @@ func writeManifest() error {
 }
 
 var harnessKind = map[string]string{
+	"h3acc":   "H3 accumulation-transaction simulation: real PVM.Psi_A on generated programs/states, host calls observed through wrappers in PVM.AccumulateOmegas, abort points injected through the gas limit, reference-model oracles in exact integers",
 	"h5cache": "H5 component-history simulation: root-computation histories on a live ChainState with the leaf-cache capacity as a randomised knob, cached vs uncached differential oracle",
 	"h1tel":   "H1 telemetry simulation: real tcpClient goroutines under a seeded park/release scheduler in a synctest bubble, simulated dialer/conn with fault injection, receiver-model oracle",
 	"h5db":    "H5 component-history simulation: tape-generated operation histories against the three real database providers vs a sorted-map model, caller-buffer reuse as the injected fault",
